@@ -161,7 +161,7 @@ def _extract_block(block, unit_name, rewrites):
             i = j
         elif s.startswith("//@@ SUBRE"):
             # regular-expression rewrite (same rule, whatever the index expressions are); count must match
-            cnt = int(s.split()[2])
+            cnt = s.split()[2]  # "n" or "lo-hi" (a rule that may or may not be needed, e.g. a conjunct)
             parts = _ARG.findall(line)
             resubs.append((cnt, parts[0], parts[1]))
         elif s.startswith("//@@ SUB"):
@@ -233,10 +233,11 @@ def _extract_block(block, unit_name, rewrites):
         rewrites.append("%s: %s => %s (x%d)" % (anchor[:40], old, new, cnt))
     for cnt, rx, new in resubs:
         c = len(re.findall(rx, btxt))
-        if c != cnt:
-            raise Undecided("lost anchor: regex rewrite %r expected %d matches, found %d (in %s)" % (rx, cnt, c, anchor[:50]))
+        lo, hi = (int(cnt.split("-")[0]), int(cnt.split("-")[1])) if "-" in cnt else (int(cnt), int(cnt))
+        if not lo <= c <= hi:
+            raise Undecided("lost anchor: regex rewrite %r expected %s matches, found %d (in %s)" % (rx, cnt, c, anchor[:50]))
         btxt = re.sub(rx, new, btxt)
-        rewrites.append("%s: regex %s => %s (x%d)" % (anchor[:40], rx, new, cnt))
+        rewrites.append("%s: regex %s => %s (x%d)" % (anchor[:40], rx, new, c))
     blines = btxt.split("\n")
     for cnt, old_l, new_l in blocksubs:
         hits = [q for q in range(len(blines) - len(old_l) + 1)
